@@ -20,12 +20,12 @@ Definition tab_auth_lists : list (option bytes) :=
    Some (bs "XPLAIN LOGINX");
    Some (bs "PLAIN LOGIN CRAM-MD5 XOAUTH2 SCRAM-SHA-1 SCRAM-SHA-1-PLUS SCRAM-SHA-256 SCRAM-SHA-256-PLUS")].
 
-(* host kinds: the model looks at the host only through is_localhost (tab_localhost_names below) *)
+(* host kinds: the model looks at the host only through Dial.is_localhost (tab_localhost_names below) *)
 Definition tab_hosts : list bytes := [bs "localhost"; bs "mail.verif.test"].
 
 Lemma tab_localhost_names :
-  is_localhost (bs "localhost") = true /\ is_localhost (bs "127.0.0.1") = true /\ is_localhost (bs "::1") = true /\
-  is_localhost (bs "mail.verif.test") = false /\ is_localhost (bs "127.0.0.2") = false.
+  Dial.is_localhost (bs "localhost") = true /\ Dial.is_localhost (bs "127.0.0.1") = true /\ Dial.is_localhost (bs "::1") = true /\
+  Dial.is_localhost (bs "mail.verif.test") = false /\ Dial.is_localhost (bs "127.0.0.2") = false.
 Proof. vm_compute. auto. Qed.
 
 Definition tab_caps (l : option bytes) (starttls : bool) : list bytes :=
@@ -59,7 +59,7 @@ Definition row_ok (row : config * srv) : bool :=
   let cc := clear_cmds (w_trace w) in
   (if c_ssl cfg then match cc with [] => true | _ => false end else true) &&
   (match c_policy cfg with Mandatory => forallb handshake_free_verb cc | _ => true end) &&
-  (forallb (fun v => negb (reveals_password v) || noenc_type (c_auth cfg) || is_localhost (c_host cfg)) cc) &&
+  (forallb (fun v => negb (reveals_password v) || noenc_type (c_auth cfg) || Dial.is_localhost (c_host cfg)) cc) &&
   (if bytes_eqb (c_auth cfg) Gen.smtp_auth_autodiscover
    then forallb (fun v => match v with
                           | VAuth m _ => negb (bytes_eqb m (bs "PLAIN") || bytes_eqb m (bs "LOGIN"))
